@@ -789,7 +789,23 @@ def rule_lookup(c, R, F):
         for j in joins:
             a = args(j)
             if len(a) == 2 and jsast.ident_name(a[1]) == "originalSource":
-                expect_gate(c, R, R + "/lookup-result", jf.loc(j), reach.of(j), BF.atom("t:" + recv), "the translated position is handed back")
+                # `path.join(dir, undefined)` throws (ERR_INVALID_ARG_TYPE): when the join sits in a try whose
+                # handler neither returns nor throws, and the only thing between that try and the join is an
+                # else-less `if (<source> !== undefined)`, an undefined source ends at the same exit with the test
+                # as it does without it - the test may be assumed to hold
+                axioms = []
+                fn_ = F.enclosing_fn(j)
+                v_ = jsast.ident_name(a[1])
+                for t_ in [x for x in jsast.walk(fn_) if x.get("type") == "TryStatement" and x.get("handler") is not None]:
+                    if not any(y is j for y in jsast.walk(t_["block"])):
+                        continue
+                    if any(y.get("type") in ("ReturnStatement", "ThrowStatement") for y in jsast.walk(t_["handler"])):
+                        continue
+                    for i_ in [x for x in jsast.walk(t_["block"]) if x.get("type") == "IfStatement" and not x.get("alternate") and any(y is j for y in jsast.walk(x["consequent"]))]:
+                        te = JF.unparen(i_["test"])
+                        if te.get("type") == "BinaryExpression" and te.get("operator") in ("!==", "!=") and {jsast.ident_name(JF.unparen(te["left"])), jsast.ident_name(JF.unparen(te["right"]))} == {v_, "undefined"}:
+                            axioms.append(BF.neg(BF.atom("undef:" + v_)))
+                expect_gate(c, R, R + "/lookup-result", jf.loc(j), reach.of(j), BF.atom("t:" + recv), "the translated position is handed back", axioms=axioms)
 
 
 def rule_original_cache(c, R, F):
